@@ -388,10 +388,15 @@ func (g *Gen) reqSpec() *ReqSpec {
 	case "CompleteTask":
 		return &ReqSpec{Kind: kind, Id: pick(g.R, g.taskIds()), CounterFrom: "snap", Counter: pick(g.R, []int{0, 0, 0, 0, -1, 1})}
 	case "SearchPromises":
-		if g.R.Intn(3) != 0 {
+		// follow a cursor some client holds (most of the time), else start a new search
+		if len(g.cursorClients(kind)) > 0 && g.R.Intn(4) != 0 {
 			return &ReqSpec{Kind: kind, Cursor: true}
 		}
 		sp := &ReqSpec{Kind: kind, Id: pick(g.R, []string{"*", "p*", "*1", "p*0", "*.*", "s*", "p1", "*p*"}), Limit: pick(g.R, []int{1, 1, 2, 3, 100, 0})}
+		if g.P.RichTags {
+			// search-centred mix: broad patterns and small pages, so that traversals span pages
+			sp.Id, sp.Limit = pick(g.R, []string{"*", "*", "p*", "p*", "*1", "*p*", "q*"}), pick(g.R, []int{1, 1, 2, 2, 3, 100, 0})
+		}
 		switch g.R.Intn(5) {
 		case 0:
 			sp.States = []string{"pending"}
@@ -403,27 +408,40 @@ func (g *Gen) reqSpec() *ReqSpec {
 		if g.R.Intn(4) == 0 {
 			sp.Tags = map[string]string{"t": pick(g.R, []string{"a", "b"})}
 		}
-		if g.P.RichTags && g.R.Intn(2) == 0 {
-			sp.Tags = map[string]string{}
-			for _, kv := range [][2]string{{"t", pick(g.R, []string{"a", "b"})}, {"u", pick(g.R, []string{"x", "y"})}, {"v", "1"}, {"resonate:timeout", "true"}} {
-				if g.R.Intn(2) == 0 {
+		if g.P.RichTags {
+			if g.R.Intn(2) == 0 {
+				sp.States = nil
+			}
+			sp.Tags = nil
+			if g.R.Intn(2) == 0 {
+				// mostly one tag, sometimes several (partial matches must not be returned)
+				sp.Tags = map[string]string{}
+				all := [][2]string{{"t", pick(g.R, []string{"a", "b"})}, {"u", pick(g.R, []string{"x", "y"})}, {"v", "1"}, {"resonate:timeout", "true"}}
+				g.R.Shuffle(len(all), func(i, j int) { all[i], all[j] = all[j], all[i] })
+				for _, kv := range all[:pick(g.R, []int{1, 1, 1, 2, 2, 3})] {
 					sp.Tags[kv[0]] = kv[1]
 				}
 			}
 		}
 		return sp
 	case "SearchSchedules":
-		if g.R.Intn(3) != 0 {
+		if len(g.cursorClients(kind)) > 0 && g.R.Intn(4) != 0 {
 			return &ReqSpec{Kind: kind, Cursor: true}
 		}
 		sp := &ReqSpec{Kind: kind, Id: pick(g.R, []string{"*", "s*", "*1", "s0"}), Limit: pick(g.R, []int{1, 2, 100, 0})}
+		if g.P.RichTags {
+			sp.Id, sp.Limit = pick(g.R, []string{"*", "*", "s*", "s*", "*1"}), pick(g.R, []int{1, 1, 2, 2, 100, 0})
+		}
 		if g.R.Intn(4) == 0 {
 			sp.Tags = map[string]string{"t": pick(g.R, []string{"a", "b"})}
 		}
-		if g.P.RichTags && g.R.Intn(2) == 0 {
-			sp.Tags = map[string]string{}
-			for _, kv := range [][2]string{{"t", pick(g.R, []string{"a", "b"})}, {"u", pick(g.R, []string{"x", "y"})}, {"v", "1"}} {
-				if g.R.Intn(2) == 0 {
+		if g.P.RichTags {
+			sp.Tags = nil
+			if g.R.Intn(2) == 0 {
+				sp.Tags = map[string]string{}
+				all := [][2]string{{"t", pick(g.R, []string{"a", "b"})}, {"u", pick(g.R, []string{"x", "y"})}, {"v", "1"}}
+				g.R.Shuffle(len(all), func(i, j int) { all[i], all[j] = all[j], all[i] })
+				for _, kv := range all[:pick(g.R, []int{1, 1, 1, 2})] {
 					sp.Tags[kv[0]] = kv[1]
 				}
 			}
@@ -431,6 +449,17 @@ func (g *Gen) reqSpec() *ReqSpec {
 		return sp
 	}
 	return &ReqSpec{Kind: "ReadPromise", Id: g.promiseId()}
+}
+
+// cursorClients lists the clients that hold a cursor of a search kind.
+func (g *Gen) cursorClients(kind string) []int {
+	var out []int
+	for c := 0; c < 3; c++ {
+		if q := g.S.cursors[c]; q != nil && q.Kind.String() == kind {
+			out = append(out, c)
+		}
+	}
+	return out
 }
 
 // instants returns clock values at which something stored becomes due.
@@ -564,6 +593,36 @@ func (g *Gen) decorate(sp *ReqSpec) {
 
 // Prologue returns the fixed opening steps of a run.
 func (g *Gen) Prologue() []Step {
+	if g.P.Prologue == "search" {
+		// content to search in: promises in several states with several tags, a few schedules
+		var st []Step
+		long := int64(10_000_000)
+		ids := append([]string{}, g.P.Promises...)
+		g.R.Shuffle(len(ids), func(i, j int) { ids[i], ids[j] = ids[j], ids[i] })
+		n := 4 + g.R.Intn(len(ids)-3)
+		for i := 0; i < n; i++ {
+			sp := g.createSpec("CreatePromise")
+			sp.Id, sp.TimeoutRel, sp.Strict = ids[i], long, false
+			st = append(st, Step{Op: "req", Req: sp})
+		}
+		st = append(st, Step{Op: "drain"})
+		for i := 0; i < n; i++ {
+			if g.R.Intn(3) == 0 {
+				st = append(st, Step{Op: "req", Req: &ReqSpec{Kind: "CompletePromise", Id: ids[i], State: pick(g.R, []string{"RESOLVED", "REJECTED", "REJECTED_CANCELED"}), Data: g.val()}})
+			}
+		}
+		for i, m := 0, 2+g.R.Intn(len(g.P.Schedules)-1); i < m && i < len(g.P.Schedules); i++ {
+			sp := &ReqSpec{Kind: "CreateSchedule", Id: g.P.Schedules[i], Cron: "0 0 1 1 *", PromiseId: "{{.id}}.{{.timestamp}}", PromiseTimeout: 1000, Data: g.val(), Tags: map[string]string{}}
+			for _, kv := range [][2]string{{"t", pick(g.R, []string{"a", "b"})}, {"u", pick(g.R, []string{"x", "y"})}, {"v", "1"}} {
+				if g.R.Intn(2) == 0 {
+					sp.Tags[kv[0]] = kv[1]
+				}
+			}
+			st = append(st, Step{Op: "req", Req: sp})
+		}
+		st = append(st, Step{Op: "drain"})
+		return st
+	}
 	if g.P.Prologue != "tasks" {
 		return nil
 	}
@@ -645,7 +704,13 @@ func (g *Gen) Next() Step {
 			if len(g.recent) > 6 {
 				g.recent = g.recent[1:]
 			}
-			return Step{Op: "req", Client: r.Intn(3), Req: sp}
+			client := r.Intn(3)
+			if sp.Cursor {
+				if cs := g.cursorClients(sp.Kind); len(cs) > 0 {
+					client = cs[r.Intn(len(cs))]
+				}
+			}
+			return Step{Op: "req", Client: client, Req: sp}
 		}})
 	}
 	// a burst of concurrent requests on the hot promise
